@@ -134,6 +134,11 @@ def emit() -> dict[str, str]:
     init = next(n for n in ai.body if isinstance(n, ast.FunctionDef) and n.name == "__init__")
     alloc_raises = sorted({lean_name(ast.unparse(n.exc.func)) for n in ast.walk(init) if isinstance(n, ast.Raise) and isinstance(n.exc, ast.Call)}
                           | ({"StructError"} if any("unpack_from" in c for c in _calls(init)) else set()))
+    # shm.py `resolve_shm_batch`: classes raised by reading the pointed-to region (`_deserialize_from_shm`) that are re-raised
+    # as ValueError (so that every caller's "bad pointer" handling sees one class)
+    rsb = _func(shm_tree, "resolve_shm_batch")
+    res_conv = [c for h in _guard_around(rsb, "_deserialize_from_shm") if isinstance(h.body[-1], ast.Raise)
+                and isinstance(h.body[-1].exc, ast.Call) and ast.unparse(h.body[-1].exc.func) == "ValueError" for c in _names(h)]
     # _read_request
     r = _func(wire, "_read_request")
     first = [c for h in _guard_around(r, "reader.read_next_batch_with_custom_metadata") if isinstance(h.body[-1], ast.Raise)
@@ -168,6 +173,8 @@ def emit() -> dict[str, str]:
     dt = [t for t in _trys(ds) if "reader.read_next_batch" in _calls(t.body)]
     drain_skips = [c for h in (dt[0].handlers if dt else []) if isinstance(h.body[-1], ast.Continue) for c in _names(h)]
     drain_ends = [c for h in (dt[0].handlers if dt else []) if isinstance(h.body[-1], ast.Return) for c in _names(h)]
+    # `_drain_stream(reader, shm=…)`: classes suppressed around `shm.free(int(offset))` of a skipped pointer batch
+    drain_free = _suppress_around(ds, "shm.free(")
     if first_skips == ["<drain_stream>"]:
         first_skips, first_ends = list(drain_skips), list(drain_ends)
     # shm.py: resolve_shm_batch no longer asserts on the peer-controlled length key
@@ -176,7 +183,7 @@ def emit() -> dict[str, str]:
     asserts_len = any(isinstance(n, ast.Assert) and "length_bytes" in ast.unparse(n.test) for n in ast.walk(rs))
 
     every = [x for xs in ([c for hs in serve_handlers for c in hs], [c for hs, _ in rr for c in hs], version_gate, validation, method_call,
-                          md_dec, att, att_conv, alloc_raises, first, trace, meth, ptr, rel, aspy, drain_skips, drain_ends, first_skips, first_ends) for x in xs]
+                          md_dec, att, att_conv, alloc_raises, res_conv, first, trace, meth, ptr, rel, aspy, drain_skips, drain_ends, first_skips, first_ends, drain_free) for x in xs]
     unknown = sorted(set(every) - {lean_name(k) for k in known})
     if unknown:
         raise RuntimeError(f"handler names outside the modelled class list: {unknown}")
@@ -218,6 +225,8 @@ def attachGuard : List Exc := {_lst(att)}
 `allocInitRaises`: what `ShmAllocator.__init__` can raise (explicit `raise`s + the header `unpack_from`) -/
 def attachConvert : List Exc := {_lst(att_conv)}
 def allocInitRaises : List Exc := {_lst(alloc_raises)}
+/-- `resolve_shm_batch`: classes raised while the pointed-to region is read as an IPC stream that are turned into ValueError -/
+def resolveConvert : List Exc := {_lst(res_conv)}
 
 /-- `_read_request`: classes turned into an RpcError reply around the first read / method-name decode / shm pointer
 resolution / kwargs extraction; classes suppressed around the trace-context decode -/
@@ -237,6 +246,9 @@ def releaseGuard : List Exc := {_lst(rel)}
 /-- `_drain_stream`: classes it steps over / classes that end it -/
 def drainSkips : List Exc := {_lst(drain_skips)}
 def drainEnds : List Exc := {_lst(drain_ends)}
+/-- `_drain_stream(reader, shm=…)`: classes suppressed around `shm.free(int(offset))` for a skipped pointer batch
+(`int()` of a non-numeric value and `free()` of an offset the allocator does not know both raise ValueError) -/
+def drainFreeGuard : List Exc := {_lst(drain_free)}
 
 /-- `resolve_shm_batch` still `assert`s on the peer-controlled `vgi_rpc.shm_length` key -/
 def pointerAssertsLength : Bool := {str(bool(asserts_len)).lower()}
